@@ -37,6 +37,7 @@ type Opts struct {
 	TopMap         bool // with TopContainer: the top-level object is a map
 	StringKeysOnly bool // map keys are always "k1", "k2", ... (field names of struct-shaped templates)
 	MarkerBias     bool // markers and references three times as often
+	RecordBias     bool // with Records: at least one record type of arity >= 2, and a quarter of the nestable values are record instances
 	RecursiveRefs  bool // a marked container may be referenced from inside itself
 	ForwardRefs    bool // references may precede their marker (resolved before the top-level container ends)
 	NoNull     bool
@@ -99,9 +100,15 @@ func Stream(t *tape.Tape, o Opts) []rec.Ev {
 	g.emit(rec.Ev{K: rec.KVersion, U: 0})
 	if o.Records {
 		n := t.Small("n-rectypes", 2)
+		if o.RecordBias && n == 0 {
+			n = 1
+		}
 		for i := 0; i < n; i++ {
 			name := fmt.Sprintf("r%d", i)
 			arity := t.Small("rt-arity", 3)
+			if o.RecordBias && arity < 2 {
+				arity = 2
+			}
 			g.emit(rec.Ev{K: rec.KRecordType, S: []byte(name)})
 			for k := 0; k < arity; k++ {
 				g.key()
@@ -251,6 +258,9 @@ func (g *sgen) plainValue(depth int, marked bool) {
 	kind := t.Intn("val-kind", 16)
 	if g.o.ArrayBias && kind != 3 && kind != 4 && t.Chance("array-bias", 1, 2) {
 		kind = []int{8, 2, 9, 15, 8, 2}[t.Intn("array-bias-kind", 6)]
+	}
+	if g.o.RecordBias && g.o.Records && len(g.recs) > 0 && canNest && t.Chance("record-bias", 1, 4) {
+		kind = 14
 	}
 	switch kind {
 	case 0:
